@@ -298,6 +298,29 @@ class Walker:
                         env = dict(env)
                         bind = dict(bind)
                         eff = eff + [("assign", st, val)]
+                        # re-binding a name whose current value is tracked and still referred to (by the new value itself - `k = k.tweak(t)` -
+                        # or by another tracked value): the old value moves to a fresh version name, so that nothing refers to the wrong `k`
+                        tnames = []
+                        for t in st.targets:
+                            if isinstance(t, ast.Name):
+                                tnames.append(t)
+                            elif isinstance(t, (ast.Tuple, ast.List)):
+                                tnames += [x for x in t.elts if isinstance(x, ast.Name)]
+                        for t in tnames:
+                            if isinstance(t, ast.Name) and (t.id in env or t.id in bind):
+                                def _refs(e, nm=t.id):
+                                    return isinstance(e, ast.AST) and any(isinstance(x, ast.Name) and x.id == nm for x in ast.walk(e))
+                                if _refs(val) or any(_refs(v_) for k_, v_ in list(env.items()) + list(bind.items()) if k_ != t.id):
+                                    self._ver = getattr(self, "_ver", 0) + 1
+                                    fresh = f"{t.id}__v{self._ver}"
+                                    ren = {t.id: ast.Name(id=fresh, ctx=ast.Load())}
+                                    val = subst(val, ren)
+                                    env = {k_: (subst(v_, ren) if isinstance(v_, ast.AST) else v_) for k_, v_ in env.items()}
+                                    bind = {k_: (subst(v_, ren) if isinstance(v_, ast.AST) else v_) for k_, v_ in bind.items()}
+                                    if t.id in env:
+                                        env[fresh] = env.pop(t.id)
+                                    else:
+                                        bind[fresh] = bind.pop(t.id)
                         for t in st.targets:
                             if isinstance(t, ast.Name):
                                 if is_pure(val):
@@ -307,10 +330,19 @@ class Walker:
                                     env.pop(t.id, None)
                                     bind[t.id] = val
                             elif isinstance(t, (ast.Tuple, ast.List)):
+                                same = isinstance(val, (ast.Tuple, ast.List)) and len(val.elts) == len(t.elts) and not any(isinstance(e_, ast.Starred) for e_ in val.elts)
                                 for i, x in enumerate(t.elts):
                                     if isinstance(x, ast.Name):
                                         env.pop(x.id, None)
-                                        bind[x.id] = ast.Subscript(value=val, slice=ast.Constant(value=i), ctx=ast.Load())
+                                        bind.pop(x.id, None)
+                                        if same:
+                                            # a, b = e1, e2: each name stands for its own element (both evaluated against the old store)
+                                            if is_pure(val.elts[i]):
+                                                env[x.id] = val.elts[i]
+                                            else:
+                                                bind[x.id] = val.elts[i]
+                                        else:
+                                            bind[x.id] = ast.Subscript(value=val, slice=ast.Constant(value=i), ctx=ast.Load())
                             else:
                                 eff = eff + [("store", st, subst(t, env))]
                     elif isinstance(st, ast.AnnAssign) and st.value is not None and isinstance(st.target, ast.Name):
